@@ -36,6 +36,8 @@ var Kinds = []Kind{
 	{"VersionedSignedProposal", core.DutyProposer, false, func() any { return new(core.VersionedSignedProposal) }},
 	{"VersionedSignedProposal(blinded)", core.DutyProposer, false, func() any { r := new(core.VersionedSignedProposal); r.Blinded = true; return r }},
 	{"VersionedAttestation", core.DutyAttester, false, func() any { return new(core.VersionedAttestation) }},
+	// what the validator API builds for the attestation formats before Electra: no validator index (the older wire form)
+	{"VersionedAttestation(no validator index)", core.DutyAttester, false, func() any { return new(core.VersionedAttestation) }},
 	{"Signature", core.DutySignature, false, func() any { return new(core.Signature) }},
 	{"SignedVoluntaryExit", core.DutyExit, false, func() any { return new(core.SignedVoluntaryExit) }},
 	{"VersionedSignedValidatorRegistration", core.DutyBuilderRegistration, false, func() any { return new(core.VersionedSignedValidatorRegistration) }},
@@ -101,6 +103,12 @@ func tryGen(t *testing.T, k Kind, seed int64) (p any, ok bool) {
 	}()
 	p = k.New()
 	testutil.NewEth2Fuzzer(t, seed).Fuzz(p)
+	if a, isAtt := p.(*core.VersionedAttestation); isAtt && strings.Contains(k.Name, "no validator index") {
+		if a.Version == eth2spec.DataVersionElectra || a.Version == eth2spec.DataVersionFulu {
+			return nil, false // next seed: only the formats before Electra come without an index
+		}
+		a.ValidatorIndex = nil
+	}
 	if r, isReg := p.(*core.VersionedSignedValidatorRegistration); isReg {
 		r.Version = eth2spec.BuilderVersionV1 // the only builder version; the fuzzer has no rule for it
 	}
